@@ -171,6 +171,12 @@ class C05(Prop):
                     es.append({"kind": "set_r", "r": r2})
                 sid += 1
                 yield {"k": "steps", "rows": ins_to_state(m), "r": r, "es": es, "seed": self.seed * 104729 + sid * 4}
+        # utils.decompose on valid tableaux x all strings (model drift only)
+        for n in (1, 2):
+            for i, m in enumerate(self.maps[n] if n == 1 else rng.sample(self.maps[n], 200 if thorough else 40)):
+                yield {"k": "decompose", "rows": ins_to_state(m), "ps": enum.strings(n)}
+        for t in self.tabs3[:6]:
+            yield {"k": "decompose", "rows": ins_to_state(t), "ps": enum.strings(3)}
         unit = [ids for ids, _ in self.progs if ids and all(i <= 14 for i in ids)]
         for j, t in enumerate(self.tabs3):
             es = []
@@ -208,6 +214,21 @@ class C05(Prop):
                 rec["exc"] = _exc(e)
                 rec["at"] = len(rec["entries"])
             return [rec]
+        if scn["k"] == "decompose":
+            out = []
+            S = be.state(scn["rows"], 0)
+            for w in scn["ps"]:
+                rec = {"op": "decompose", "pre": {"rows": scn["rows"], "r": 0}, "p": w + [0]}
+                try:
+                    from ..backend import bits_wire
+                    ph, tmp, b, c = be.utils.decompose(be.pauli(w + [0]).g, S.gs, S.ps)
+                    rec.update(phase=_as_int(ph), tmp=bits_wire(be.tolist(tmp), 0), b=be.p_ints(b), c=be.p_ints(c))
+                except Exception as e:
+                    rec["raised"] = _exc(e)      # (not "exc": no property promises this function; drift only)
+                out.append(rec)
+                if "raised" in rec:
+                    break
+            return out
         if scn["k"] == "wide":
             n = scn["n"]
             rec = {"op": "widecirc", "prog": [circ.wire_item(it) for it in scn["items"]]}
